@@ -44,6 +44,13 @@ def rrRun (ctr n : Nat) : Nat → List Nat
   | 0 => []
   | m + 1 => (rrSelect ctr n).2 :: rrRun (rrSelect ctr n).1 n m
 
+/-! ## random
+
+`s.clients[rand.IntN(len(s.clients))]`: `draw` is what `rand.IntN(n)` returned. Its contract
+(`0 ≤ draw < n`, panic for `n = 0`) is math/rand/v2's and is trusted; `none` = the index expression
+would panic. -/
+def randomPick (n draw : Nat) : Option Nat := if draw < n then some draw else none
+
 /-! ### concurrent selections: `Add` is atomic, the indexing happens later, in any order -/
 
 inductive RREvent where
